@@ -267,7 +267,6 @@ func shortUnit(key string) string { return strings.TrimPrefix(key, repoMod+"/") 
 
 // ---------- ghost / protocol hooks (filled in by proto.go) ----------
 
-
 // imports reports whether package p transitively imports the package with path q.
 func (e *Engine) imports(p *ssa.Package, q string) bool {
 	seen := map[string]bool{}
